@@ -217,9 +217,12 @@ func runFD(t *simrt.Tape, rc *RunCtx) *Violation {
 			if in.origin {
 				set.OriginValue = in.scalar(in.x)
 			}
-			dst := make([]float64, in.dim)
-			fd.Gradient(dst, wrapVec, append([]float64(nil), in.x...), set)
-			return dst
+			// "If dst is nil, a new slice will be allocated and returned"
+			var dst []float64
+			if in.dim%2 == 1 {
+				dst = make([]float64, in.dim)
+			}
+			return fd.Gradient(dst, wrapVec, append([]float64(nil), in.x...), set)
 		case 2:
 			fj := func(y, x []float64) {
 				log.enter(x)
@@ -253,7 +256,11 @@ func runFD(t *simrt.Tape, rc *RunCtx) *Violation {
 			if in.origin {
 				set.OriginValue = in.scalar(in.x)
 			}
-			dst := mat.NewSymDense(in.dim, nil)
+			// "If the dst matrix is empty it will be resized to the correct dimensions"
+			dst := &mat.SymDense{}
+			if in.dim%2 == 1 {
+				dst = mat.NewSymDense(in.dim, nil)
+			}
 			fd.Hessian(dst, wrapVec, append([]float64(nil), in.x...), set)
 			out := make([]float64, 0, in.dim*in.dim)
 			for i := 0; i < in.dim; i++ {
